@@ -1354,6 +1354,19 @@ func c34Check(col *stat.Collector, rt stat.Fataler, plan c34Plan, run c34Run) (n
 	if len(run.Sabs) > 0 {
 		cls["key-deleted-under-holder"] = true
 	}
+	for i, e := range plan.Events {
+		if e.Kind != "close" || run.ExtAt[i] < 0 || plan.Lockers[e.Locker].CloseLingerMs == 0 {
+			continue
+		}
+		for _, a := range run.Acqs {
+			if a.Acquired && a.Locker == e.Locker && a.RetUs <= run.ExtAt[i] && (!a.Done || a.DoneUs >= run.ExtAt[i]) && (!a.Released || a.RelUs >= run.ExtAt[i]) {
+				cls["lingering-close-under-live-holder"] = true
+				if plan.Majority >= 2 {
+					cls["lingering-close-under-live-holder-majority>=2"] = true
+				}
+			}
+		}
+	}
 	for _, e := range plan.Events {
 		cls["event-"+e.Kind] = true
 	}
@@ -1479,6 +1492,31 @@ func genC34Plan(rt *rapid.T) c34Plan {
 		}
 		p.Events = append(p.Events, e)
 	}
+	// What Locker.Close does to the locks it holds only shows on the server when the client outlives the call: a third
+	// of the lockers close their client 10 / 40 ms late. In 1 plan of 4 a locker is closed, lingering, while its first
+	// actor is meant to hold a lock (first call without gap, hold >= 60 ms, Close 5 - 30 ms into it; script latency is
+	// never 0, so the release scripts of the key monitors take effect one after the other).
+	for i := range p.Lockers {
+		p.Lockers[i].CloseLingerMs = rapid.SampledFrom([]int{0, 0, 10, 40}).Draw(rt, "closeLinger")
+	}
+	if rapid.IntRange(0, 3).Draw(rt, "closeUnderHolder") == 0 {
+		ai := rapid.IntRange(0, min(nl, na)-1).Draw(rt, "closedActor") // actor i < nl uses locker i
+		op := &p.Actors[ai].Ops[0]
+		holdSum -= op.HoldMs
+		op.GapMs, op.SabAfterMs = 0, 0
+		if op.Kind == "force" {
+			op.Kind = "with"
+		}
+		if op.HoldMs < 60 {
+			op.HoldMs = 60
+		}
+		holdSum += op.HoldMs
+		if p.Lockers[ai].CloseLingerMs == 0 {
+			p.Lockers[ai].CloseLingerMs = 40
+		}
+		p.Events = append(p.Events, c34Event{AtMs: rapid.SampledFrom([]int{5, 12, 30}).Draw(rt, "closeAt"), Kind: "close", Locker: ai})
+		closes++
+	}
 	// Every hold is bounded, a released lock wakes its waiters at once, and a lock whose owner was closed or
 	// disconnected disappears after one validity period at the latest.
 	// Stale values expire by themselves, slowed scripts add their delay.
@@ -1527,7 +1565,7 @@ func c34ReplayPlans(t *testing.T, c *stat.Collector) {
 func TestVerif_C34_Lock(t *testing.T) {
 	// see TestVerif_C39_Aside: Go 1.25.0 corrupts the specials list when WaitGroup.Add runs in parallel in a bubble
 	defer runtime.GOMAXPROCS(runtime.GOMAXPROCS(1))
-	c := stat.For("C34", "locks").Rule("timed plans in a synctest bubble: 2-4 rueidislock lockers (own clients, shared prefix, KeyMajority 1-3, KeyValidity 200-2000 ms, TryNextAfter 5/20 ms, NoLoopTracking and FallbackSETPX on/off) and 2-6 actors (several may share a locker) x 1-3 calls of WithContext / TryWithContext (ForceWithContext in 1 plan of 6) on 1-2 names with hold times 0 .. validity+30 ms, then the cancel function; KeyPrefix from {default, p, app:locks, a:b:c, lock-s.v1/x{y}} and names from {a, b, job:42, {t}:x, a:b:c}; in 2 of 3 plans with majority >= 2 the server takes 1.4 x TryNextAfter for the first 1-2 scripts a locker sends for 1-2 generated keys (the attempt gives the key up and is granted with the others); events at generated instants by another client: DEL of one / all keys of a name, DEL of one key 10/30 ms after a generated call was granted, PEXPIRE 1-30 ms, FLUSHALL, a stale value (SET NX PX 1-2 validity) on one key; connection kill of a locker, Locker.Close; script latency 0.1-1 ms; observed: lock contexts (watcher goroutines), every lock script executed by the server with the liveness of all lock contexts at that instant, the key values from the server log; oracle: (5) a granted lock's value was in >= majority keys, (3) a holder's context is done when the server executes a release script that takes its value below the majority, (2) a context is done within 5 ms after its value left the majority (connection not killed), (1) without Force no two holders are live unless one of them had lost its majority (replies of one virtual instant are handed over in either order), (4) no WithContext waits until its deadline of all hold times + 10 validity periods, nothing hangs; non-trivial = an external deletion/expiry/flush or a forced takeover while a WithContext call on that name was waiting, or >= 3 lockers contending for one name at one instant")
+	c := stat.For("C34", "locks").Rule("timed plans in a synctest bubble: 2-4 rueidislock lockers (own clients, shared prefix, KeyMajority 1-3, KeyValidity 200-2000 ms, TryNextAfter 5/20 ms, NoLoopTracking and FallbackSETPX on/off) and 2-6 actors (several may share a locker) x 1-3 calls of WithContext / TryWithContext (ForceWithContext in 1 plan of 6) on 1-2 names with hold times 0 .. validity+30 ms, then the cancel function; KeyPrefix from {default, p, app:locks, a:b:c, lock-s.v1/x{y}} and names from {a, b, job:42, {t}:x, a:b:c}; in 2 of 3 plans with majority >= 2 the server takes 1.4 x TryNextAfter for the first 1-2 scripts a locker sends for 1-2 generated keys (the attempt gives the key up and is granted with the others); events at generated instants by another client: DEL of one / all keys of a name, DEL of one key 10/30 ms after a generated call was granted, PEXPIRE 1-30 ms, FLUSHALL, a stale value (SET NX PX 1-2 validity) on one key; connection kill of a locker, Locker.Close (a third of the lockers get their client through ClientBuilder with Close taking effect 10/40 ms late, so that what Close does to held locks reaches the server; in 1 plan of 4 such a locker is closed 5-30 ms into a hold of >= 60 ms); script latency 0.1-1 ms; observed: lock contexts (watcher goroutines), every lock script executed by the server with the liveness of all lock contexts at that instant, the key values from the server log; oracle: (5) a granted lock's value was in >= majority keys, (3) a holder's context is done when the server executes a release script that takes its value below the majority, (2) a context is done within 5 ms after its value left the majority (connection not killed), (1) without Force no two holders are live unless one of them had lost its majority (replies of one virtual instant are handed over in either order), (4) no WithContext waits until its deadline of all hold times + 10 validity periods, nothing hangs; non-trivial = an external deletion/expiry/flush or a forced takeover while a WithContext call on that name was waiting, or >= 3 lockers contending for one name at one instant")
 	defer c.Flush()
 	// VERIF_REPLAY_JSON=<plan.json | violation.json>: run one recorded plan C34_REPLAY_N times (default 1). The outcome
 	// of a plan depends on the goroutine schedule inside the bubble, so a rapid fail file of a rarely failing plan may
